@@ -1,9 +1,9 @@
 SPECIFICATION Spec
 CONSTANTS
-  W = 4
+  W = 3
   N = 2
-  THR = 7
-  THR2 = 3
-  MODE = "mul"
+  THR = 3
+  THR2 = 8
+  MODE = "square"
 INVARIANT Contract
 CHECK_DEADLOCK FALSE
